@@ -116,6 +116,10 @@ func (f *Formatter) Format(vcl *ast.VCL) io.Reader {
 		buf.WriteString(decl.Buffer)
 	}
 	buf.WriteString("\n")
+	// Comments after the last declaration
+	if len(vcl.Trailing) > 0 {
+		buf.WriteString(f.formatComment(vcl.Trailing, "\n", 0))
+	}
 
 	return bytes.NewReader(buf.Bytes())
 }
